@@ -33,5 +33,6 @@ fn run(r: &mut Run) -> Result<(), MachineryError> {
     text_space(r, "C01/sequences-with-hyphens", &[L, SP, HY, OSH, CSI, NL, D], t.pick(4, 6), &g, M_C01, WidthMode::Display, 3)?;
     char_context_space(r, "C01/all-characters-in-context", M_C01, algs_default())?;
     escape_scan_space(r, "C01/escape-grammar-scan", M_C01, algs_default())?;
+    word_seq_space(r, "C01/word-sequences", M_C01, algs_default())?;
     scale::text_scale(r, "C01/long-paragraphs", "C01")
 }
